@@ -212,12 +212,12 @@ Definition dec_cell (bs : list N) : res cellstep :=
     let at1 := if short then N.land attr0 (N.lxor 65535 SHORT_DATA) else attr0 in
     if at1 =? INVISIBLE then Ok (CSkip r) else
     if short then
-      match takeN 3 r with
-      | None => Err 2                                                 (* o + 3 > bytes.len() *)
+      match takeN 4 r with
+      | None => Err 2                                                 (* o + 4 > bytes.len() (C02 fix d6295fe: was o + 3) *)
       | Some _ =>
         match r with
         | c :: f :: b :: p :: r' => checked_cell c f b p at1 r'        (* a byte is always a scalar value *)
-        | _ => Panic 1                                                (* exactly 3 bytes left: bytes[o] of the font page *)
+        | _ => Panic 1                                                (* unreachable after the check above *)
         end
       end
     else
@@ -254,11 +254,18 @@ Fixpoint dec_rows (w : Z) (n : nat) (y : nat) (ls : list (list cell)) (bs : list
 
 Definition has (w v : N) : bool := N.land w v =? v.
 
+(* read_utf8_encoded_string after C02's fix 4f977d8: None (-> Err FileTooShort, 11) when the prefix or the string is cut off *)
+Definition take_e (n : N) (bs : list N) : res (list N * list N) :=
+  match takeN n bs with Some p => Ok p | None => Err 11 end.
+Definition guard_len (n : N) (bs : list N) {A} (k : res A) : res A :=
+  if N.of_nat (length bs) <? n then Err 11 else k.
+
 Definition decode (bs : list N) : res layer :=
-  do p <- take 4 bs;                                    (* read_utf8_encoded_string: data[0..4] *)
+  do p <- take_e 4 bs;                                  (* read_utf8_encoded_string: data[0..4] *)
   let size := unle (fst p) in
-  do p <- take size (snd p);                            (* data[4..4 + size] *)
+  do p <- take_e size (snd p);                          (* data[4..4 + size] *)
   let ttl := Unicode.utf8_lossy (fst p) in              (* String::from_utf8_lossy(&data[4..4 + size]).into_owned() *)
+  guard_len 41 (snd p) (                                (* C02 fix 2015626: `bytes.len() - o < LAYER_RECORD_SIZE` -> FileTooShort *)
   do p <- byte (snd p); let rl := fst p in
   do p <- byte (skipn 4 (snd p));                       (* o += 4; mode = bytes[o] *)
   let md := fst p in
@@ -279,11 +286,10 @@ Definition decode (bs : list N) : res layer :=
     do p <- take 8 (snd p); let len := unle (fst p) in
     let rest := snd p in
     if rl =? 1 then Err 8                                (* image layer *)
-    else if 18446744073709551616 <=? size + 45 + len then Panic 3      (* o + length *)
-    else if N.of_nat (length rest) <? len then Err 2
+    else if N.of_nat (length rest) <? len then Err 2     (* C02 fix bcdfc94: `bytes.len() - o < length`, no addition *)
     else
       do ls <- dec_rows w (Z.to_nat h) 0 [] rest;
       Ok (mkLayer ttl RNormal m (if a =? 0 then None else Some (r, g, b))
                   (has flags L_IS_VISIBLE) (has flags L_EDIT_LOCK) (has flags L_POS_LOCK) (has flags L_HAS_ALPHA) (has flags L_ALPHA_LOCKED)
                   tr x y None w h d ls)
-  end.
+  end).
